@@ -335,6 +335,50 @@ class Ctx:
         shutil.rmtree(d, ignore_errors=True)
         return r
 
+    def monitor_all(self, area, module, cfg, trace_path, label, timeout=900):
+        """Like monitor() for monitors that never stop: they accumulate <<trace, clause, line>> in a register that the
+        postcondition prints as <<"BAD", {...}>>. Returns (list of (trace, clause, line), events). Reporting is left to the
+        caller (known-finding classification needs the trace context)."""
+        d = self.scratch('mon_' + label, area)
+        evs = read_ndjson(trace_path)
+        ntr = sum(1 for e in evs if e.get('ev') == 'reset')
+        r = validate_trace(d, module, cfg, trace_path, timeout=timeout)
+        if r.error:
+            raise Inconclusive('monitor %s on %s: %s' % (module, label, r.error))
+        if r.violated and not (r.kind == 'postcondition'):
+            raise Inconclusive('monitor %s on %s: unexpected %s' % (module, label, r.violated))
+        if r.hw != len(evs) + 1:
+            raise Inconclusive('monitor %s on %s consumed %s of %d events' % (module, label, r.hw, len(evs)))
+        bad = []
+        mm = re.search(r'<<\s*"BAD"', r.out)
+        i = mm.start() if mm else -1
+        if i < 0:
+            raise Inconclusive('monitor %s on %s printed no BAD register' % (module, label))
+        depth, j = 0, i
+        while j < len(r.out):
+            if r.out.startswith('<<', j):
+                depth += 1
+                j += 2
+                continue
+            if r.out.startswith('>>', j):
+                depth -= 1
+                j += 2
+                if depth == 0:
+                    break
+                continue
+            j += 1
+        val = tlaval.parse_value(r.out[i:j].replace('\n', ' '))
+        for t in tlaval.setof(val[1]):
+            bad.append((t[0], t[1], t[2]))
+        bad.sort(key=lambda x: x[2])
+        self.traces += max(ntr, 1)
+        self.events += len(evs)
+        self.transitions += r.generated
+        self.states += r.distinct
+        log('[mon] %s %s: %d events, %d traces, %d violation(s) (%.1fs)' % (module, label, len(evs), ntr, len(bad), r.wall))
+        shutil.rmtree(d, ignore_errors=True)
+        return bad, evs
+
     def conform(self, area, module, cfg, trace_path, label, timeout=900):
         """Validate a recording against the DESIGN spec's actions. Rejection = spec drift (not an alarm)."""
         d = self.scratch('conf_' + label, area)
